@@ -150,7 +150,7 @@ def parse(src: str) -> dict:
 
 # --------------------------------------------------------------------------- real runtime objects
 
-_BARE = {"List", "Dict", "Tuple", "Type", "Callable", "Sequence"}
+_BARE = {"List", "Dict", "Tuple", "Type", "Callable", "Sequence", "Iterator", "AsyncIterator"}
 
 
 def describe_object(o: Any, *, const_pos: bool = False) -> dict:
@@ -226,7 +226,14 @@ def describe_object(o: Any, *, const_pos: bool = False) -> dict:
 SHADOWING = ("TimeoutError", "Warning")
 
 
+# classes of a multi-module world (harness/c13_context.py): {id(class): "<module letter>.<name>"}; empty unless a
+# case of that slice is being described, so every other description is unchanged
+CLASS_ALIASES: dict[int, str] = {}
+
+
 def class_name(t: Any) -> str:
+    if CLASS_ALIASES and id(t) in CLASS_ALIASES:
+        return CLASS_ALIASES[id(t)]
     name = getattr(t, "__name__", None)
     if name in SHADOWING and t is getattr(builtins, name, None):
         return "builtins." + name
